@@ -184,6 +184,15 @@ def gen_file(rng, fmt, n, layout=None, extra_markers=()):
         lines.append("@format:" + ",".join(fmtkeys))
         lines.append("@common:user_crate")
         lines.append("@var:T32x = Tgas/3d2")
+    # the numbers a database gives its reactions: mostly 1..n in file order, sometimes out of order, far from the positions, or with
+    # a number used twice (one reaction listed once per temperature range)
+    numbering = list(range(1, n + 1))
+    shape = rng.random()
+    if shape < 0.2:
+        rng.shuffle(numbering)
+    elif shape < 0.3:
+        numbering = [1000 * rng.randint(1, 9) + k for k in numbering]
+        numbering[-1] = numbering[0]
     for i in range(n):
         if fmt != "krome" and rng.random() < 0.15:
             lines.append(rng.choice(["", "   ", "\t"]))
@@ -201,7 +210,7 @@ def gen_file(rng, fmt, n, layout=None, extra_markers=()):
             else:
                 lines.append("@var:Hnuclei = get_Hnuclei(n(:))")
         r = gen_abstract(rng, fmt)
-        idx = i + 1
+        idx = numbering[i]
         if fmt == "krome":
             nr = sum(1 for k in fmtkeys if k.lower() == "r")
             npk = sum(1 for k in fmtkeys if k.lower() == "p")
